@@ -367,6 +367,9 @@ type PropRun struct {
 	XDisagree []string
 }
 
+// replayBudget: overlay tests a single check run may spend on replaying counterexamples.
+var replayBudget = 4
+
 // crossCheckOn: thorough tier — every query refuted by one solver is re-run on a second one.
 var crossCheckOn bool
 
@@ -740,9 +743,16 @@ func writeReplay(e *Engine, prop, ob, reason string, o *Obligation) string {
 		}
 		rec["failing_queries"] = fails
 		rec["function"] = o.Func
-		if conf, out := tryReplay(e, o); out != "" {
-			rec["replay_output"] = out
-			rec["confirmed_on_real_code"] = conf
+		if replayBudget > 0 {
+			if conf, out := tryReplay(e, o); out != "" {
+				if strings.Contains(out, "harness:") {
+					replayBudget-- // an overlay test was actually run (each may take up to 20 s)
+				}
+				rec["replay_output"] = out
+				rec["confirmed_on_real_code"] = conf
+			}
+		} else {
+			rec["replay_output"] = "not replayed: replay budget of this run (4 harness runs) is used up"
 		}
 	}
 	data, _ := json.MarshalIndent(rec, "", " ")
